@@ -336,6 +336,20 @@ def raEq (S : State) (i j : Nat) : Bool :=
 def hashKey (S : State) (i : Nat) : Cls × List (Cls × List Int) :=
   ((S.obj i).rcls, (S.obj i).nss.map (fun e => nsHashKey e.2))
 
+/-- Field values are opaque to the model except for equality; a value `≥ 1000` stands for an
+    *unhashable* Python object (list, dict, set, bytearray). Such values are legal everywhere; only an
+    explicit `hash()` of a namespace / set that holds one raises `TypeError` ("like tuples, an instance is
+    hashable if and only if the field values are hashable"). -/
+def unhashableVal (v : Int) : Bool := decide (1000 ≤ v)
+
+/-- `hash(namespace)` -/
+def nsHash (n : NS) : Except Err (Cls × List Int) :=
+  if n.vals.any unhashableVal then .error .TypeError else .ok (nsHashKey n)
+
+/-- `hash(render_args)` -/
+def raHash (S : State) (i : Nat) : Except Err (Cls × List (Cls × List Int)) :=
+  if (S.obj i).nss.any (fun e => e.2.vals.any unhashableVal) then .error .TypeError else .ok (hashKey S i)
+
 /-- `RenderArgs.__contains__` -/
 def contains (S : State) (i : Nat) (ns : NS) : Bool :=
   match get? (S.obj i).nss ns.cls with
